@@ -93,6 +93,7 @@ def conv(h, rule_text):
         h.add("dash")            # may be kebab-case / SCREAMING-KEBAB-CASE
     if rule not in ("SnakeCase", "ScreamingSnakeCase"):
         h.add("empty")           # `__` -> "" for the word-joining rules
+        h.add("leaddigit")       # `_2fa` -> `2fa`: the word-joining rules drop the underscore a Rust identifier needs in front of a digit
     if rule in ("PascalCase", "UpperCase", "ScreamingSnakeCase"):
         h.discard("reserved")
     return frozenset(h)
@@ -353,6 +354,14 @@ class Producers:
                     if y.get("k") == "path" and len(y["segs"]) == 1:
                         env2 = dict(env2)
                         env2[y["segs"][0]] = frozenset(set(self.expr(y, f, env, stack, depth + 1)) & {"empty"})
+            g_then = self.guard_of(c, f) if c.get("k") != "letcond" else None
+            if g_then is not None and g_then[1] == {"reserved"}:
+                # inside `if is_reserved_word(&v)` v is one of the listed words: letters only
+                env2 = dict(env2)
+                env2[g_then[0]] = frozenset(["reserved"])
+            elif g_then is not None and g_then[1] == {"leaddigit"}:
+                env2 = dict(env2)
+                env2[g_then[0]] = frozenset(set(self.expr({"k": "path", "segs": [g_then[0]]}, f, env, stack, depth + 1)) - {"empty", "reserved"})
             out = set(self.block_value(e["then"], f, env2, stack, depth))
             if e.get("else") is not None:
                 # guard sensitivity: `if is_reserved_word(&v) {..} else ..` / `if v.is_empty() {..} else ..` refine v in the else branch
@@ -507,6 +516,10 @@ class Producers:
         if c.get("k") == "mcall" and c["method"] == "is_empty" and not c["args"]:
             v = var_of(c["recv"])
             return (v, {"empty"}) if v else None
+        if c.get("k") == "mcall" and c["method"] == "starts_with" and len(c["args"]) == 1 and c["args"][0].get("k") == "closure" \
+                and re.search(r"is_ascii_digit\(\)|is_numeric\(\)|is_digit\(", expr_text(c["args"][0]["body"])):
+            v = var_of(c["recv"])
+            return (v, {"leaddigit"}) if v else None
         if c.get("k") == "call" and c["func"].get("k") == "path" and len(c["args"]) == 1:
             v = var_of(c["args"][0])
             if not v:
@@ -1035,6 +1048,15 @@ def check(ctx):
                 r3.bad(V(r3.id, "%s::%s" % (owner, entry), "frame:%s" % txt[:60], "rendering `%s` is not bracket-balanced: %s" % (txt, errs)))
             else:
                 r3.ok("%s::%s -> %s" % (owner, entry, txt[:60]))
+    # the frames must also survive the namespace qualifier applied in commands.ts / events.ts (rule shared with C02-D2)
+    from c02 import check_frames_known_to_qualifier
+    sub3 = Rule(r3.id, "D3", "", "")
+    check_frames_known_to_qualifier(S, sub3)
+    r3.instances += sub3.instances
+    r3.discharged += sub3.discharged
+    for v_ in sub3.violations:
+        v_.rule = r3.id
+        r3.violations.append(v_)
     r3.require_floor(24, "constructor renderings")
     rules.append(r3)
 
